@@ -25,6 +25,7 @@ CONSTANTS
   TickSteps,      \* set of clock advances (ticks) allowed, {} = no time
   MaxNow,
   AllowOpen, AllowFin, AllowRst,     \* BOOLEAN switches
+  AnyW,           \* BOOLEAN: explore every writable subset (else: everything writable)
   HistOn,         \* BOOLEAN: record hist (behaviour generation)
   GenDepth        \* level at which a behaviour is printed
 
@@ -48,7 +49,7 @@ ApplyEntry(S, e) ==
   CASE e.a = "Open" -> [S EXCEPT !.opened = @ \cup {e.c}, !.pend = Append(@, e.c)]
     [] e.a = "Send" -> [S EXCEPT !.q[e.c] = Append(@, e.f)]
     [] e.a = "Fin"  -> [S EXCEPT !.q[e.c] = Append(@, [k |-> "fin"]), !.gone = @ \cup {e.c}]
-    [] e.a = "Rst"  -> [S EXCEPT !.q[e.c] = Append(@, [k |-> "rst"]), !.gone = @ \cup {e.c}]
+    [] e.a = "Rst"  -> [S EXCEPT !.q[e.c] = Append(@, [k |-> "rst"]), !.gone = @ \cup {e.c}, !.h.dead = @ \cup {e.c}]
     [] e.a = "Die"  -> [S EXCEPT !.h.dead = @ \cup {e.c}]
     [] e.a = "Tick" -> [S EXCEPT !.now = @ + e.n]
     [] e.a = "Round" ->
@@ -100,7 +101,8 @@ EnvRst(c) ==
   /\ AllowRst /\ phase = "idle" /\ nenv < MaxEnv /\ CanSend(c)
   /\ inq' = [inq EXCEPT ![c] = Append(@, [k |-> "rst"])]
   /\ nenv' = nenv + 1 /\ hist' = Log([a |-> "Rst", c |-> c]) /\ gone' = gone \cup {c}
-  /\ UNCHANGED <<H, opened, pend, rl, phase, now, ndeaths>>
+  /\ H' = [H EXCEPT !.dead = @ \cup {c}]          \* after a reset the manager's writes fail too
+  /\ UNCHANGED <<opened, pend, rl, phase, now, ndeaths>>
 
 EnvDie(c) ==
   /\ phase = "idle" /\ ndeaths < MaxDeaths /\ c \in Live(H) \ H.dead
@@ -132,7 +134,7 @@ BeginAny ==
     \E R \in SUBSET Ready :
       \E order \in SetToSeqs(R) :
         LET live1 == Live(H) \cup (IF acc = "" THEN {} ELSE {acc}) IN
-        \E W \in (IF R = {} THEN {{}} ELSE SUBSET live1) :
+        \E W \in (IF R = {} THEN {{}} ELSE IF AnyW THEN SUBSET live1 ELSE {live1}) :
           Begin(acc, order, W)
 
 Service ==
